@@ -11,12 +11,14 @@
      level, left associativity, no diagnostics, exactly the derived tokens consumed;
    * every node of such a tree encloses its children, siblings are strictly ordered, and the
      position lookup of manager/utils.rs returns the terminal at any position of its token;
-   * statements (C06_stmt_roundtrip) and whole files (C06_file_roundtrip_partial) for the
-     sub-grammar listed at C06_file_roundtrip_partial.
+   * statements (C06_stmt_roundtrip), OQL select / fetch (C06_oql_roundtrip; the select node encloses every
+     clause present: C06_oql_select_encloses) and whole files (C06_file_roundtrip) for the grammar listed at
+     C06_file_roundtrip_partial, including annotations in front of fields, classes, modules, type declarations
+     and -- as the empty node the code leaves -- in front of anything else, and composed types T + (a, b).
    Everything else of the property's grammar is covered by the correspondence check only
    (checks/c06.py: a test, labelled as such in the manifest). *)
 From GoldV Require Import Base Tokens Keywords Lexer AstKinds Tree Strings PComb Grammar Ladder
-                          RTComb LadderProofs LadderNames ExprRT Encase RangeEnc TypeRT StmtRT DeclRT FuelIndep FileRT EnclRT.
+                          RTComb LadderProofs LadderNames ExprRT Encase RangeEnc TypeRT OqlRT StmtRT DeclRT FuelIndep FileRT EnclRT.
 From Coq Require Import Lia.
 
 (* ---------- 1. the generated ladder ---------- *)
@@ -216,10 +218,66 @@ Proof. exact gram_params_rt. Qed.
 (* every statement derivable at level f: assignment, expression statement, return, exit/break/continue,
    comment, var (any type, optional absolute), const / uses / type inside a body, while, loop, repeat-until,
    for (to/downto, optional step), foreach (optional downto / using), switch with when-blocks (value lists,
-   ranges) and else, if-elseif-else; bodies: any sequences of such statements, nested to any depth *)
+   ranges) and else, if-elseif-else, OQL select / fetch; bodies: any sequences of such statements, nested to any depth.
+   [jfollow more]: what follows does not start with an identifier spelled like an OQL join word (outerjoinon,
+   leftouterjoinon, ...): the from-clause of a select would take it for a join; for the same reason a derivable
+   statement that starts with an identifier does not start with such a word *)
 Theorem C06_stmt_roundtrip : forall f ts n more,
-  GStmt f ts n -> follow_ok ts (hd_ty more) -> Parses (g_stmt (gram f)) (ts ++ more) more n.
+  GStmt f ts n -> follow_ok ts (hd_ty more) -> jfollow more -> Parses (g_stmt (gram f)) (ts ++ more) more n.
 Proof. exact gram_stmt_rt. Qed.
+
+(* ---------- 5b. OQL ---------- *)
+
+(* select [top n] [distinct] items from sources [joins] [where e] [order by fields [descending]] [using x]  and
+   fetch into targets [using x]  ([OqlStmt], over the expressions / dot chains / comparisons of level S f):
+   parse_oql_expr returns exactly the derived node, nothing else consumed, no diagnostics *)
+Theorem C06_oql_roundtrip : forall f ts n more,
+  OqlStmt (GExpr (S f)) (GDots (S f)) (GExprK (S f) 2) ts n -> oql_follow more ->
+  Parses (parse_oql_expr (g_expr (gram (S f))) (parse_dot_ops (g_expr (gram f))) (parse_compare (g_primary (gram (S f)))))
+         (ts ++ more) more n.
+Proof.
+  intros f ts n more H Hf.
+  apply (oql_parses _ _ _ (GExpr (S f)) (GDots (S f)) (GExprK (S f) 2)); [| | |exact H|exact Hf].
+  - intros ts' n' r' H' Hf'. destruct (gram_expr_rt (S f)) as (IHe & _). apply IHe; assumption.
+  - intros ts' n' r' H' Hf'. apply gram_dots_rt; assumption.
+  - intros ts' n' r' H' Hf'. apply (gram_exprk_rt f 2); assumption.
+Qed.
+
+(* the same as a statement of a body *)
+Theorem C06_oql_stmt_roundtrip : forall f ts n more,
+  OqlStmt (GExpr (S f)) (GDots (S f)) (GExprK (S f) 2) ts n -> follow_ok ts (hd_ty more) -> jfollow more ->
+  Parses (g_stmt (gram (S f))) (ts ++ more) more n.
+Proof. intros f ts n more H. apply gram_stmt_rt. cbn [GStmt]. apply S_oql. exact H. Qed.
+
+(* the code picks the end of a select node by an or-else chain over  using / order by / where / from / items: that chain
+   is the end of the last clause present ... *)
+Theorem C06_oql_select_end : forall st sel frm wh ob us,
+  (match us with Some n => nrange n
+   | None => match ob with
+             | Some l => last_range l (match wh with Some n => nrange n | None => last_range frm (last_range sel (trange st)) end)
+             | None => match wh with Some n => nrange n | None => last_range frm (last_range sel (trange st)) end
+             end
+   end) = select_end st sel frm wh ob us.
+Proof. exact select_end_chain. Qed.
+
+(* ... and for lexer-ordered tokens the select node lies inside its tokens and encloses EVERY clause present: the limit,
+   each selected item, each source (with its joins), the where condition, each order-by field, the using clause *)
+Theorem C06_oql_select_encloses : forall f ot st lim dist sel frm wh ob us ts lo hi,
+  OqlStmt (GExpr (S f)) (GDots (S f)) (GExprK (S f) 2) ts (mk_oql_select ot st lim dist sel frm wh ob us) -> Ord lo ts hi ->
+  Inside lo (mk_oql_select ot st lim dist sel frm wh ob us) hi /\
+  forall c, In c (opt_list lim ++ sel ++ frm ++ opt_list wh ++ olist ob ++ opt_list us) ->
+    encloses (nrange (mk_oql_select ot st lim dist sel frm wh ob us)) (nrange c) /\ enc_tree c.
+Proof.
+  intros f ot st lim dist sel frm wh ob us ts lo hi H Ho.
+  destruct (OqlStmt_enc _ _ _ (expr_enc (S f)) (dots_enc (S f)) (exprk_enc (S f) 2) _ _ _ _ H Ho) as [Hin He].
+  split; [exact Hin|]. apply enc_tree_unfold in He. cbn [mk_oql_select nchildren] in He. rewrite Forall_forall in He.
+  intros c Hc. destruct (He c Hc) as [A B]. split; assumption.
+Qed.
+
+(* every node of an OQL statement (select or fetch) encloses its children *)
+Theorem C06_oql_encloses : forall f ts n lo hi,
+  OqlStmt (GExpr (S f)) (GDots (S f)) (GExprK (S f) 2) ts n -> Ord lo ts hi -> IE lo hi n.
+Proof. intros f ts n lo hi H Ho. exact (OqlStmt_enc _ _ _ (expr_enc (S f)) (dots_enc (S f)) (exprk_enc (S f) 2) _ _ _ _ H Ho). Qed.
 
 (* one top-level declaration *)
 Theorem C06_decl_roundtrip : forall fuel ts n more,
@@ -235,8 +293,14 @@ Proof. exact decl_parses. Qed.
      bodies are sequences of the statements of C06_stmt_roundtrip (nested to any depth); expressions: all
      operator levels, parentheses, prefix / postfix operators, dot chains, calls, array accesses, set
      literals, literals.
-   NOT proved, covered by the correspondence check only: OQL select / fetch statements, annotations in
-   front of declarations other than fields, composed types (T + (a, b)).
+     Since the third round also: OQL select / fetch statements in bodies, composed types (T + (a, b) + U), an
+     annotation in front of a class / module / type declaration (no node), and an annotation in front of anything
+     else (a method, a constant, a uses list, another annotation, the end of the file): the code ignores it and
+     leaves an empty node among the root's children ([Ds_annot]).
+   NOT proved, covered by the correspondence check only: annotations in front of record fields and enum variants,
+   OQL select items that start with a call (name(args).x; the proved items are the asterisk, name( * ), name(), dot chains that
+   start with a plain identifier), an OQL select as the collection of a foreach (foreach x in OQL select ...),
+   erroneous programs (C05 / C15).
    The un-memoised parser at any fuel above the derivation level: *)
 Theorem C06_file_roundtrip_partial : forall f fuel ts ns,
   Decls f ts ns -> (f < fuel)%nat ->
@@ -292,13 +356,13 @@ Qed.
 Example C06_file_derivable : forall ct cn pt pn wt c x eq y ew ep,
   tty ct = TClass -> tty cn = TIdentifier -> tty pt = TProc -> tty pn = TIdentifier -> tty wt = TWhile ->
   tty c = TIdentifier -> tty x = TIdentifier -> tty eq = TEquals -> tty y = TIdentifier ->
-  tty ew = TEndWhile -> tty ep = TEndProc ->
+  tty ew = TEndWhile -> tty ep = TEndProc -> is_join_word x = false ->
   exists ns, Decls 2 [ct; cn; pt; pn; wt; c; x; eq; y; ew; ep] ns /\
              ns = [mk_class ct cn None;
                    mk_proc pt pn [wt; c; x; eq; y; ew]
                      [mk_while wt (mk_terminal c) [mk_binop eq (mk_terminal x) (mk_terminal y)] ew] ep].
 Proof.
-  intros ct cn pt pn wt c x eq y ew ep Hct Hcn Hpt Hpn Hwt Hc Hx Heq Hy Hew Hep.
+  intros ct cn pt pn wt c x eq y ew ep Hct Hcn Hpt Hpn Hwt Hc Hx Heq Hy Hew Hep Hjx.
   eexists. split; [|reflexivity].
   assert (forall f t, tty t = TIdentifier -> GExpr (S f) [t] (mk_terminal t)) as Ae.
   { intros f t H. apply GExprK_0. apply GExprK_atom. apply GPrim_ident. rewrite H. left. reflexivity. }
@@ -306,6 +370,7 @@ Proof.
   { intros f t H. apply X_atom. apply D_id. rewrite H. left. reflexivity. }
   assert (GStmt 2 [x; eq; y] (mk_binop eq (mk_terminal x) (mk_terminal y))) as Sassign.
   { apply (S_assign 1 (GStmt 1) [x] _ eq [y] _); [apply Ad; exact Hx|exists x, []; split; [reflexivity|left; auto]
+      |apply jfollow_cons; [rewrite Hx; discriminate|exact Hjx]
       |rewrite Heq; left; reflexivity|apply Ae; exact Hy]. }
   assert (GStmt 3 [wt; c; x; eq; y; ew] (mk_while wt (mk_terminal c) [mk_binop eq (mk_terminal x) (mk_terminal y)] ew)) as Swhile.
   { apply (S_while 2 (GStmt 2) wt [c] _ [x; eq; y] _ ew Hwt); [apply Ae; exact Hc| |rewrite Hew; left; reflexivity].
@@ -362,6 +427,59 @@ Proof.
   - unfold method_mods_info, has_method_body, member_flags. cbn [existsb]. rewrite Hpr, Hfw. vm_compute. reflexivity.
 Qed.
 
+(* third round.  A composed type   T + (a, b)   *)
+Example C06_composed_type_derivable : forall t p ob a cm b cb,
+  tty t = TIdentifier -> tty p = TPlus -> tty ob = TOBracket -> tty a = TIdentifier -> tty cm = TComma ->
+  tty b = TIdentifier -> tty cb = TCBracket ->
+  GType 1 [t; p; ob; a; cm; b; cb]
+        (mk_binop p (mk_type_basic t) (mk_type_enum ob [mk_enum_variant a None; mk_enum_variant b None] cb)).
+Proof.
+  intros t p ob a cm b cb Ht Hp Hob Ha Hcm Hb Hcb.
+  apply (TF_composed (GType 0) [t] (mk_type_basic t) [p; ob; a; cm; b; cb] _ (CA_basic t Ht)); [|discriminate].
+  eapply (CT_cons p [ob; a; cm; b; cb] _ [] _ _ Hp); [|apply CT_nil].
+  apply (CA_enum ob [a; cm; b] _ cb Hob); [|exact Hcb].
+  apply (Args_cons TComma _ [a] _ cm [b] _); [apply EV_plain; exact Ha|exact Hcm|apply Args_one; apply EV_plain; exact Hb].
+Qed.
+
+(*   [ a1 ] class X   [ a2 ] proc P endproc  : the first annotation leaves no node, the second one an empty node *)
+Example C06_annotations_derivable : forall fuel o1 a1 c1 ct cn o2 a2 c2 pt pn ep,
+  tty o1 = TOSqrBracket -> tty a1 = TIdentifier -> tty c1 = TCSqrBracket -> tty ct = TClass -> tty cn = TIdentifier ->
+  tty o2 = TOSqrBracket -> tty a2 = TIdentifier -> tty c2 = TCSqrBracket -> tty pt = TProc -> tty pn = TIdentifier ->
+  tty ep = TEndProc ->
+  Decls fuel [o1; a1; c1; ct; cn; o2; a2; c2; pt; pn; ep] [mk_class ct cn None; mk_empty_default; mk_proc pt pn [] [] ep].
+Proof.
+  intros fuel o1 a1 c1 ct cn o2 a2 c2 pt pn ep Ho1 Ha1 Hc1 Hct Hcn Ho2 Ha2 Hc2 Hpt Hpn Hep.
+  assert (forall a, tty a = TIdentifier -> annot_inner [a]) as Hin
+    by (intros a Ha; constructor; [rewrite Ha; reflexivity|constructor]).
+  apply (Ds_cons fuel [o1; a1; c1; ct; cn] _ [o2; a2; c2; pt; pn; ep] _).
+  - apply (D_annotated fuel o1 [a1] c1 [ct; cn] _ Ho1 (Hin a1 Ha1) Hc1). apply H_class; assumption.
+  - apply (Ds_annot fuel o2 [a2] c2 [pt; pn; ep] _ Ho2 (Hin a2 Ha2) Hc2); [eapply nostart_ty; [exact Hpt|reflexivity]|].
+    apply (Ds_cons fuel [pt; pn; ep] _ [] []); [|apply Ds_nil|split; [exact I|intros _; exact I]].
+    apply (D_proc fuel pt pn [] [] ep Hpt); [rewrite Hpn; left; reflexivity|apply Seq_nil|constructor|rewrite Hep; left; reflexivity].
+  - split; [simpl; unfold is_comment; rewrite Ho2; simpl; tauto|].
+    intro X. simpl in X. unfold is_comment in X. rewrite Ho1 in X. discriminate.
+Qed.
+
+(*   OQL select * from a in B where c order by o using u   *)
+Example C06_oql_derivable : forall ot st star fk al ik src wk c ok bk o uk u,
+  tty ot = TOQL -> tty st = TSelect -> tty star = TAsterisk -> tty fk = TFrom -> tty al = TIdentifier -> tty ik = TIn ->
+  tty src = TIdentifier -> tty wk = TWhere -> tty c = TIdentifier -> tty ok = TOrder -> tty bk = TBy -> tty o = TIdentifier ->
+  tty uk = TUsing -> tty u = TIdentifier ->
+  OqlStmt (GExpr 1) (GDots 1) (GExprK 1 2) [ot; st; star; fk; al; ik; src; wk; c; ok; bk; o; uk; u]
+    (mk_oql_select ot st None None [mk_terminal star] [mk_from None None None al src None []] (Some (mk_terminal c))
+                   (Some [mk_order_by (mk_terminal o) None]) (Some (mk_terminal u))).
+Proof.
+  intros ot st star fk al ik src wk c ok bk o uk u Hot Hst Hstar Hfk Hal Hik Hsrc Hwk Hc Hok Hbk Ho Huk Hu.
+  apply (O_select _ _ _ ot st [] None None [star] _ fk [al; ik; src] _ [wk; c] _ [ok; bk; o] _ [uk; u] _ Hot Hst);
+    [apply Top_none|exact I| |exact Hfk| | | |].
+  - apply Args_one. apply SI_star. exact Hstar.
+  - apply Args_one. apply (FI _ None None None al ik src None [] []); try exact I; try assumption. apply J_nil.
+  - apply Wh_some; [exact Hwk|]. apply GExprK_0. apply GExprK_atom. apply GPrim_ident. rewrite Hc. left. reflexivity.
+  - apply Ob_some; [exact Hok|exact Hbk|]. apply Args_one.
+    apply (OI _ [o] _ None); [|exact I]. apply X_atom. apply D_id. rewrite Ho. left. reflexivity.
+  - apply Us_some; [exact Huk|rewrite Hu; left; reflexivity].
+Qed.
+
 Definition txt (s : list N) : list tok := fst (lex s).
 
 (* the lexer's tokens for a real text satisfy the token-order hypothesis, and the whole pipeline
@@ -414,6 +532,25 @@ Example C06_comment_kept_before_simple :
   end.
 Proof. vm_compute. exact I. Qed.
 
+(* ---------- a documented fact about the position lookup at token boundaries ----------
+   Range::contains_pos is inclusive at both ends and the lookup descends into the FIRST child that contains the
+   position.  Where two tokens touch, the shared position belongs to the earlier sibling: in
+   "proc P\n a++b++\nendproc\n" the position 1:4 is the end of the first `++` and the start of `b`; the lookup
+   answers the first statement, not the terminal b (one column further it answers b).  So "at ANY position of a
+   node's token the innermost node is that node" holds for the terminals of one expression tree
+   (C06_innermost_is_ident: siblings there are separated by an operator or bracket token) but not across touching
+   statements; the generator of the correspondence check separates statements by line breaks. *)
+Definition touch_text : list N := [112;114;111;99;32;80;10;32;97;43;43;98;43;43;10;101;110;100;112;114;111;99;10].
+Example C06_lookup_at_touching_tokens :
+  match fst (parse_gold (txt touch_text)) with
+  | Ok [] (Node KAstRoot _ _ _ _ [Node KAstProcedure _ _ _ _ [_; Node KAstMethodBody _ _ _ _ [s1; s2] as body]]) =>
+      nkind s1 = KAstUnaryOp /\ nkind s2 = KAstUnaryOp /\
+      search (mkPos 1 4) body = s1 /\ nkind (search (mkPos 1 5) body) = KAstTerminal /\
+      cdiags (snd (parse_gold (txt touch_text))) = []
+  | _ => False
+  end.
+Proof. vm_compute. auto. Qed.
+
 Print Assumptions C06_ladder_matches_model.
 Print Assumptions C06_ladder_level_step.
 Print Assumptions C06_ladder_dot_matches_model.
@@ -442,6 +579,14 @@ Print Assumptions C06_type_roundtrip.
 Print Assumptions C06_params_roundtrip.
 Print Assumptions C06_stmt_roundtrip.
 Print Assumptions C06_decl_roundtrip.
+Print Assumptions C06_oql_roundtrip.
+Print Assumptions C06_oql_stmt_roundtrip.
+Print Assumptions C06_oql_select_end.
+Print Assumptions C06_oql_select_encloses.
+Print Assumptions C06_oql_encloses.
+Print Assumptions C06_composed_type_derivable.
+Print Assumptions C06_annotations_derivable.
+Print Assumptions C06_oql_derivable.
 Print Assumptions C06_file_roundtrip_partial.
 Print Assumptions C06_file_roundtrip_default_fuel.
 Print Assumptions C06_parse_gold_fuel_independent.
@@ -455,3 +600,4 @@ Print Assumptions C06_lexed_tokens_ordered.
 Print Assumptions C06_lexed_example.
 Print Assumptions C06_comment_node_dropped_before_block.
 Print Assumptions C06_comment_kept_before_simple.
+Print Assumptions C06_lookup_at_touching_tokens.
